@@ -1,4 +1,5 @@
 import RpcVerif.Lemmas.RouterInv
+import RpcVerif.Lemmas.RouterFailover
 /-
   C18 — Client fails over, wakes waiters, times out and closes without stranding callers.
   The waiter table, Close, Fallback and the detector's releases are events of R; the DialTimeout
@@ -68,5 +69,31 @@ example : ((R.run (R.init .rr false)
     takes the client lock, so R's `checkDone` (the critical section after the ping) is all that
     routing, time-outs and Close ever wait for — however long a black-holed target lets the probe hang. -/
 theorem C18_probe_outside_the_lock : Gen.checkProbesOutsideLock = true := by decide
+
+/-! ### failover and recovery ("within a bounded detection time" = from the next detection pass on) -/
+
+/-- A target marked dead — by a dial failure any call form reported (`C18_dial_failure_marks_dead`,
+    `C18_every_form_reports`) or by its own failed probe — is out of the rotation from the next
+    detection pass on, whichever target that pass was for, on every reachable state of R. -/
+theorem C18_dead_target_leaves_the_rotation (p : R.Policy) (b : Bool) (tr : List R.Ev) (s s' : R.State)
+    (h : R.run (R.init p b) tr = some s) (a x : String) (order : List String)
+    (hs : R.step s (.checkDone a order) = some s')
+    (hx : ∀ t, t ∈ s'.targets → t.addr = x → t.alive = false) : x ∉ s'.list :=
+  R.dead_target_leaves_the_rotation p b tr s s' h a x order hs hx
+
+/-- … and calls are only ever scheduled to members of the live list, so it receives none. -/
+theorem C18_routed_is_listed (p : R.Policy) (b : Bool) (tr : List R.Ev) (s s' : R.State)
+    (h : R.run (R.init p b) tr = some s) (hd : s.director = none) (k c : Nat)
+    (hs : R.step s (.route k c) = some s') (hc : s.closed = false) :
+    ∃ a, s'.sent = s.sent ++ [a] ∧ a ∈ s.list :=
+  R.routed_is_listed p b tr s s' h hd k c hs hc
+
+/-- Recovery: the pass whose probe of a configured target succeeds puts it back into the rotation;
+    right after any pass the live list is exactly the set of targets marked alive. -/
+theorem C18_recovered_target_rejoins (p : R.Policy) (b : Bool) (tr : List R.Ev) (s s' : R.State)
+    (h : R.run (R.init p b) tr = some s) (a : String) (order : List String)
+    (ht : ∃ t, t ∈ s.targets ∧ t.addr = a) (hup : s.up a = true)
+    (hs : R.step s (.checkDone a order) = some s') : a ∈ s'.list ∧ s'.list.Perm (R.aliveAddrs s') :=
+  ⟨R.recovered_target_rejoins p b tr s s' h a order ht hup hs, R.pass_makes_list_the_live_set p b tr s s' h a order hs⟩
 
 end RpcVerif.Props
